@@ -9,3 +9,5 @@ RULES = {"C11.a", "C11.b", "C11.c", "C11.d", "C11.e"}
 
 def check(ctx):
     cursor.analyze(ctx, RULES)
+    from .common import cache_foundation
+    cache_foundation(ctx)
